@@ -163,6 +163,9 @@ func c08Script(r *core.Run, agentBin string, md *fakes.Metadata, si, rep int, ki
 		i := idx
 		idx++
 		mu.Unlock()
+		// One connection per list call: Go's transport transparently re-sends an idempotent request
+		// when a *reused* connection is reset, which would show up as a second arrival without a sleep.
+		w.Header().Set("Connection", "close")
 		if i >= len(script) || script[i] {
 			return false // success: default empty list
 		}
